@@ -282,12 +282,13 @@ func RunC13(tier string, args []string) int {
 		"goleveldb, net/http and zap internals are not instrumented and trusted to be internally synchronised",
 		"scenarios bound the quantifier: 2-5 threads, preemption bound as reported",
 		"Go map iteration order is fixed (sorted) by the instrumenter",
+		"complement, not part of the exhaustive claim: the same kinds of scenario bodies run free (real goroutines, real sync, uninstrumented repository code built with -race, cmd/racepass) so that Go's race detector sees every memory access of the executed paths, including bytes and third-party structures the access hooks do not cover",
 	}
 	bound, maxExec := 2, 400000
-	deadline := time.Now().Add(150 * time.Second)
+	perScenario, nshards := 150*time.Second, 16
 	if tier == "thorough" {
 		bound, maxExec = 3, 20000000
-		deadline = time.Now().Add(40 * time.Minute)
+		perScenario, nshards = 30*time.Minute, 64
 	}
 	var reports []schedReport
 	execs, points := 0, 0
@@ -302,7 +303,7 @@ func RunC13(tier string, args []string) int {
 			if disk && tier != "thorough" {
 				b = 1
 			}
-			rep := exploreScenario(chk, "C13", sc, sc.Class, b, maxExec, deadline, 16, true)
+			rep := exploreScenario(chk, "C13", sc, sc.Class, b, maxExec, time.Now().Add(perScenario), nshards, true)
 			reports = append(reports, rep)
 			execs += rep.Executions + rep.SeqRuns
 			points += rep.Points
@@ -321,6 +322,11 @@ func RunC13(tier string, args []string) int {
 			samples = append(samples, r)
 		}
 	}
+	racePass, code := c13RacePass(chk, tier)
+	if code != 0 {
+		return code
+	}
+	fmt.Printf("  free-running -race pass: scenarios=%d lookups=%d origin requests=%d race reports=%d panics=%d\n", racePass.Scenarios, racePass.Lookups, racePass.OriginRequests, racePass.RaceReports, len(racePass.Panics))
 	cov := fw.Coverage{
 		"states":                        execs,
 		"transitions":                   points + execs,
@@ -330,6 +336,7 @@ func RunC13(tier string, args []string) int {
 		"scenarios":                     reports,
 		"samples":                       samples,
 		"exhaustive":                    exhaustive,
+		"free_running_race_pass":        racePass,
 		"explanation":                   "states = complete executions (schedules) of the real code explored under the cooperative scheduler incl. coarse-grained reference runs; transitions = scheduling decisions taken; every execution runs on the implementation itself",
 	}
 	return chk.Finish(cov)
